@@ -60,6 +60,7 @@ def install(I):
     M["ipaddress.addr.__str__"] = lambda I, o: IpStr(o.attrs["packed"], o.attrs["version"])
     M["typing.cast"] = lambda I, t, v: v
     M["struct.unpack_from"] = m_unpack_from
+    M["types.MappingProxyType"] = lambda I, d: d          # read-only VIEW of the same mapping (writes through it are not modelled)
     M["copy.deepcopy"] = m_deepcopy
     M["copy.copy"] = m_deepcopy
     M["math.floor"] = m_floor
